@@ -244,6 +244,64 @@ Theorem warning_alert_inert_during_negotiation W lease full est s w level desc :
   r_closed (fst r) = r_closed s /\ r_cid (fst r) = r_cid s.
 Proof. unfold recv_conn_neg. apply warning_alert_inert_before_establishment. Qed.
 
+(* KNOWN (K-C08-1), as coded: an UNPROTECTED return_routability_check record that decodes is not dropped - it is
+   answered with a fatal unexpected_message alert and an error (the handshake in progress ends; on an established
+   connection Read fails and the protected alert closes the peer).  The pinned suite demands this behaviour. *)
+Theorem unprotected_rrc_refuted W lease full est s w :
+  r_closed s = false -> w_epoch w = 0 -> w_clear w = CRrc ->
+  check maxseq48 (get_win W 0 (r_wins s)) (w_seq w) = true ->
+  snd (recv_top W lease full est s w) = [OAlert alert_fatal desc_unexpected_message; OErr].
+Proof.
+  intros Hc He Hb Hk. unfold recv_top, recv_conn, unprotected_alert, unprotected_ccs. rewrite He, Hb.
+  cbn [N.eqb andb orb]. rewrite andb_false_r. cbn [andb].
+  unfold disp_content, recv_fb, gated, dispatch. rewrite Hc, He, Hb, Hk. cbn [N.eqb is_hs is_warning negb orb].
+  destruct (r_epoch s <? 0) eqn:E; [lia|]. rewrite !andb_false_r. cbn. reflexivity.
+Qed.
+
+(* ---------- the epoch-0 replay window never moves (5206069) ---------- *)
+
+Theorem epoch0_window_never_moves W lease full est s w :
+  w_epoch w = 0 -> r_wins (fst (recv_top W lease full est s w)) = r_wins s.
+Proof.
+  intro He. unfold recv_top. destruct (recv_conn W lease full est s w) as [s' os]. now rewrite He.
+Qed.
+
+(* whatever record number an unprotected record carries - 2^48-1 included - the verdict of the replay check on
+   every later record, of every epoch, is what it was (before, ONE epoch-0 record numbered 2^48-1 made every
+   later genuine epoch-0 record a "replay": the handshake in progress never completed) *)
+Theorem unprotected_number_harmless W lease full est s g e q :
+  w_epoch g = 0 ->
+  check maxseq48 (get_win W e (r_wins (fst (recv_top W lease full est s g)))) q =
+  check maxseq48 (get_win W e (r_wins s)) q.
+Proof. intro He. now rewrite epoch0_window_never_moves. Qed.
+
+(* no OMark output is ever produced for an unprotected record *)
+Theorem epoch0_never_marks W lease full est s w :
+  w_epoch w = 0 -> marks (snd (recv_top W lease full est s w)) = [].
+Proof.
+  intro He. unfold recv_top. destruct (recv_conn W lease full est s w) as [s' os]. rewrite He. cbn [N.eqb snd].
+  induction os as [|o os IH]; [reflexivity|]. cbn [filter]. destruct o; cbn [is_mark negb marks]; auto.
+Qed.
+
+(* protected records are untouched by this layer *)
+Lemma recv_top_protected W lease full est s w :
+  w_epoch w <> 0 -> recv_top W lease full est s w = recv_conn W lease full est s w.
+Proof.
+  intro He. unfold recv_top. destruct (recv_conn W lease full est s w) as [s' os].
+  destruct (w_epoch w =? 0) eqn:E; [lia|reflexivity].
+Qed.
+
+(* the warning alert while the handshake runs, at the top layer: nothing at all is output *)
+Theorem warning_alert_silent_before_establishment W lease full s w level desc :
+  w_epoch w = 0 -> w_clear w = CAlert level desc -> is_warning (CAlert level desc) = true ->
+  snd (recv_top W lease full false s w) = [].
+Proof.
+  intros He Hb Hw.
+  destruct (warning_alert_inert_before_establishment W lease full s w level desc He Hb Hw) as [Ho _].
+  unfold recv_top. destruct (recv_conn W lease full false s w) as [s' os]. cbn [snd] in Ho. rewrite He. cbn [N.eqb snd].
+  destruct Ho as [-> | ->]; reflexivity.
+Qed.
+
 (* ---------- forged records ---------- *)
 
 Lemma forgedb_spec w : forgedb w = true <-> w_epoch w <> 0 /\ w_auth w = None.
